@@ -443,12 +443,24 @@ pair0_set_send_buf_len(void *arg, const void *buf, size_t sz, nni_type t)
 	pair0_sock *s = arg;
 	int         val;
 	nng_err     rv;
+	nni_aio    *a;
 
 	if ((rv = nni_copyin_int(&val, buf, sz, 0, 8192, t)) != NNG_OK) {
 		return (rv);
 	}
 	nni_mtx_lock(&s->mtx);
 	rv = nni_lmq_resize(&s->wmq, (size_t) val);
+	// Senders that were waiting take any room we just made, oldest
+	// first, so that a later send cannot overtake them.
+	while ((!nni_lmq_full(&s->wmq)) &&
+	    ((a = nni_list_first(&s->waq)) != NULL)) {
+		nni_msg *m = nni_aio_get_msg(a);
+		size_t   l = nni_msg_len(m);
+		nni_aio_list_remove(a);
+		nni_lmq_put(&s->wmq, m);
+		nni_aio_set_msg(a, NULL);
+		nni_aio_finish(a, 0, l);
+	}
 	// Changing the size of the queue can affect our readiness.
 	if (!nni_lmq_full(&s->wmq)) {
 		nni_pollable_raise(&s->writable);
